@@ -449,8 +449,9 @@ Lemma html_rawtext_proof : forall c d l ty tk l', cfg_ok c -> html_inv d l -> in
        ty = TextT /\ tk = Some (mkSl (lpos (lz l)) (e - lpos (lz l))) /\ ltext l' = tk /\
        rawtag l' = 0 /\ intag l' = false /\ lpos (lz l') = e) /\
     (e = len d \/ (rawtag l <> html_hash_Plaintext /\ end_tag_at (rawtag l) (d ++ [0]) e)) /\
-    (has_delims c = false -> rawtag l <> html_hash_Script -> rawtag l <> html_hash_Plaintext ->
-       forall p, lpos (lz l) <= p < e -> ~ end_tag_at (rawtag l) (d ++ [0]) p).
+    (has_delims c = false -> rawtag l <> html_hash_Plaintext ->
+       forall p, lpos (lz l) <= p < e -> plain_raw (rawtag l) (d ++ [0]) (lpos (lz l)) (p + 1) ->
+                 ~ end_tag_at (rawtag l) (d ++ [0]) p).
 Proof.
   intros c d l ty tk l' Hc Hi Hit Hraw Hn. pose proof Hi as (Hl & Hlen & Hsuf & _). pose proof Hl as [Hw _].
   pose proof (lwf_clean l Hl Hit) as Hcl.
@@ -466,7 +467,7 @@ Proof.
     rewrite (adv_len _ _ Ha), Hlen in Hend.
     rewrite shiftv_spec in Hn by eauto using adv_wf. cbn [rbind fst snd] in Hn.
     destruct Ha as (A1 & A2 & A3).
-    exists (len d). split; [lia|]. split; [|split; [left; reflexivity|intros _ _ Hp; b2p; congruence]].
+    exists (len d). split; [lia|]. split; [|split; [left; reflexivity|intros _ Hp; b2p; congruence]].
     intros Hlt. cbn [sn] in Hn. replace (0 <? lpos zp - lstart zp) with true in Hn by (symmetry; apply Z.ltb_lt; lia).
     injection Hn as <- <- <-. cbn [ltext rawtag intag lz skip lpos]. rewrite A2, Hcl, Hend. tauto.
   - destruct (safe_inv _ _ (rawtext_loop_spec c (rawtag l) (lz l) false Hc Hw)) as (s & Es & Ha). rewrite Es in Hn. cbn [rbind] in Hn.
@@ -481,7 +482,11 @@ Proof.
       destruct Hend as [Hend|Hend].
       * left. apply at_end_true in Hend; [|eauto using adv_wf]. rewrite (adv_len _ _ Ha), Hlen in Hend. exact Hend.
       * right. split; [b2p; assumption|]. eapply (end_tag_at_ext true _ _ _ (lpos (lz l))); eauto. lia.
-    + intros Hd Hs _ p Hp Hm. apply (Hnm Hd Hs p Hp).
+    + intros Hd _ p Hp Hs Hm.
+      assert (Hs' : plain_raw (rawtag l) (lbuf (lz l)) (lpos (lz l)) (p + 1)).
+      { destruct Hs as [Hs|Hs]; [left; exact Hs|right]. intros p' Hp' (C0 & C1 & C2 & C3). apply (Hs p' Hp').
+        repeat split; rewrite <- Hsuf2 by lia; assumption. }
+      apply (Hnm Hd p Hp Hs').
       assert (Hblen : len (d ++ [0]) = len (lbuf (lz l))).
       { pose proof (lx_wf_len _ Hw) as [Hbl _]. rewrite len_app. change (len [0]) with 1. lia. }
       eapply (end_tag_at_ext true _ _ _ (lpos (lz l))); [|exact Hblen|lia|exact H0|exact Hm]. intros i Hge. symmetry. apply Hsuf2. exact Hge.
